@@ -5,6 +5,6 @@ sys.path.insert(0, V)
 from sim import env
 t0 = time.time()
 e = env.child_env({'NUMBA_NUM_THREADS': '16'})
-rc = subprocess.call([sys.executable, os.path.join(V, 'tools', 'warm.py')], env=e, cwd=V)
+rc = subprocess.call([sys.executable, os.path.join(V, "tools", "warm.py")], env=e, cwd=V)
 print('setup: warm exit=%s %.1fs cache=%s' % (rc, time.time() - t0, e['NUMBA_CACHE_DIR']))
 sys.exit(rc)
